@@ -125,11 +125,15 @@ impl ColumnWriter {
         }
 
         block_writer.finish().await?;
+        #[cfg(sneldb_verif)]
+        crate::verif::step("colwriter.blocks_written", "");
 
         // Write index files (also convert to async)
         for (key, index) in indexes_by_key {
             let path = path_resolver.zfc_path_for_key(&key);
             index.write_to_path_async(&path).await?;
+            #[cfg(sneldb_verif)]
+            crate::verif::step("colwriter.zfc_written", &format!("\"field\":\"{}\"", key.1));
         }
 
         info!("wrote all columns");
